@@ -15,6 +15,8 @@ pub enum Family {
     Brackets,
     Idioms,
     Long,
+    Explosive,
+    Nested,
 }
 
 impl Family {
@@ -30,6 +32,8 @@ impl Family {
             Family::Brackets => "F9-bracket-dense",
             Family::Idioms => "F10-classic-idioms",
             Family::Long => "F11-long-straight-line",
+            Family::Explosive => "F12-expression-growth",
+            Family::Nested => "F13-deep-nesting",
         }
     }
 }
@@ -334,7 +338,7 @@ fn stmt(rng: &mut Rng, a: &mut Asm, cfg: &StructCfg, depth: u32, budget: &mut i3
         }
         (x, y)
     };
-    let choice = match rng.below(if depth < cfg.max_depth { 26 } else { 17 }) {
+    let choice = match rng.below(if depth < cfg.max_depth { 27 } else { 17 }) {
         14 if depth >= cfg.max_depth => 19,
         15 if depth >= cfg.max_depth => 22,
         16 if depth >= cfg.max_depth => 23,
@@ -347,8 +351,10 @@ fn stmt(rng: &mut Rng, a: &mut Asm, cfg: &StructCfg, depth: u32, budget: &mut i3
         }
         24 => 22,
         25 => 23,
+        26 => 24,
         x => x,
     };
+    let choice = if rng.chance(1, 30) { 24 } else { choice };
     match choice {
         0 => {
             let c = cell(rng);
@@ -606,6 +612,43 @@ fn stmt(rng: &mut Rng, a: &mut Asm, cfg: &StructCfg, depth: u32, budget: &mut i3
                 a.output(y);
                 a.add(y, -1);
             });
+        }
+        24 => {
+            // power-of-two probe: build 2^k by repeated multiplication by 4 (or 2), then print
+            // whether it is non-zero. Catches truncated compares / moves on wide cells.
+            let p0 = k + cfg.scratch + 1;
+            let p1 = p0 + 1;
+            let kk = *rng.pick(&[7u32, 8, 9, 15, 16, 17, 24, 31, 32, 33, 40, 48, 63, 64]);
+            a.clear(p0);
+            a.clear(p1);
+            a.add(p0, 1);
+            for _ in 0..kk / 2 {
+                a.while_(p0, |a| {
+                    a.add(p1, 4);
+                    a.add(p0, -1);
+                });
+                a.while_(p1, |a| {
+                    a.add(p0, 1);
+                    a.add(p1, -1);
+                });
+            }
+            if kk % 2 == 1 {
+                a.while_(p0, |a| {
+                    a.add(p1, 2);
+                    a.add(p0, -1);
+                });
+                a.while_(p1, |a| {
+                    a.add(p0, 1);
+                    a.add(p1, -1);
+                });
+            }
+            // flag = (p0 != 0)
+            a.while_(p0, |a| {
+                a.add(p1, 1);
+                a.clear(p0);
+            });
+            a.output(p1);
+            a.clear(p1);
         }
         23 => {
             // a real loop whose body ends in an `if` that adjusts the loop's own condition cell
@@ -1251,6 +1294,173 @@ pub fn long_straight(rng: &mut Rng) -> String {
 }
 
 // ---------------------------------------------------------------------------------
+// F12 / F13: expression growth and deep nesting (shared with C13)
+
+/// Shapes aimed at expression growth: chains of products of sums, repeated squaring.
+/// One cell accumulates a sum of many two-variable products of run-time values (each
+/// factor itself a two-term sum), is forced out to memory by an output and is then used
+/// again in the same block: a single stored expression with dozens of operations.
+fn big_expression(rng: &mut Rng) -> String {
+    let mut a = Asm::new();
+    let pairs = rng.range(2, 5);
+    // layout: acc at 0, y at 1, scratch 2,3, pairs from 4 on (a_i at 4+2i, b_i at 5+2i)
+    let (acc, y, t0, t1) = (0i64, 1i64, 2i64, 3i64);
+    for i in 0..pairs {
+        a.input(4 + 2 * i);
+        a.input(5 + 2 * i);
+    }
+    a.input(y);
+    if rng.coin() {
+        a.add(y, 1);
+    }
+    for i in 0..pairs {
+        let (x, b) = (4 + 2 * i, 5 + 2 * i);
+        // x += b
+        a.while_(b, |a| {
+            a.add(x, 1);
+            a.add(b, -1);
+        });
+        // acc += x * y   (x consumed, y preserved through t1)
+        a.while_(x, |a| {
+            a.while_(y, |a| {
+                a.add(acc, 1);
+                a.add(t1, 1);
+                a.add(y, -1);
+            });
+            a.while_(t1, |a| {
+                a.add(y, 1);
+                a.add(t1, -1);
+            });
+            a.add(x, -1);
+        });
+    }
+    let _ = t0;
+    a.output(acc);
+    a.go(acc);
+    a.raw(*rng.pick(&["[]", "[.-]", "[>>+<<[-]]>>.<<", "[-]", "[>>+<<-]>>.", "[.[-]]"][..]));
+    a.raw("+.");
+    a.out
+}
+
+pub fn explosive(rng: &mut Rng) -> String {
+    if rng.chance(1, 3) {
+        return big_expression(rng);
+    }
+    let mut a = Asm::new();
+    let k = rng.range(3, 6);
+    for c in 0..k {
+        if rng.coin() {
+            a.input(c);
+        } else {
+            a.add(c, rng.range(1, 4));
+        }
+    }
+    let t = k;
+    let t2 = k + 1;
+    let steps = rng.urange(2, 7);
+    let wrap = rng.chance(1, 2);
+    let body = |a: &mut Asm, rng: &mut Rng| {
+        for _ in 0..steps {
+            let x = rng.range(0, k - 1);
+            let mut y = rng.range(0, k - 2);
+            if y >= x {
+                y += 1;
+            }
+            match rng.below(3) {
+                0 => {
+                    // x = x * y (y preserved)
+                    a.while_(x, |a| {
+                        a.while_(y, |a| {
+                            a.add(t, 1);
+                            a.add(t2, 1);
+                            a.add(y, -1);
+                        });
+                        a.while_(t2, |a| {
+                            a.add(y, 1);
+                            a.add(t2, -1);
+                        });
+                        a.add(x, -1);
+                    });
+                    a.while_(t, |a| {
+                        a.add(x, 1);
+                        a.add(t, -1);
+                    });
+                }
+                1 => {
+                    // x = x * x
+                    a.while_(x, |a| {
+                        a.add(t, 1);
+                        a.add(t2, 1);
+                        a.add(x, -1);
+                    });
+                    a.while_(t, |a| {
+                        a.while_(t2, |a| {
+                            a.add(x, 1);
+                            a.add(y, 1);
+                            a.add(t2, -1);
+                        });
+                        a.while_(y, |a| {
+                            a.add(t2, 1);
+                            a.add(y, -1);
+                        });
+                        a.add(t, -1);
+                    });
+                    a.clear(t2);
+                }
+                _ => {
+                    // x += y + const
+                    a.while_(y, |a| {
+                        a.add(x, 1);
+                        a.add(t, 1);
+                        a.add(y, -1);
+                    });
+                    a.while_(t, |a| {
+                        a.add(y, 1);
+                        a.add(t, -1);
+                    });
+                    a.add(x, rng.range(1, 3));
+                }
+            }
+        }
+    };
+    if wrap {
+        let c = k + 2;
+        a.input(c);
+        a.while_(c, |a| {
+            body(a, rng);
+            a.add(c, -1);
+        });
+    } else {
+        body(&mut a, rng);
+    }
+    for c in 0..k {
+        a.output(c);
+    }
+    a.out
+}
+
+pub fn deep_nesting(rng: &mut Rng) -> String {
+    let depth = rng.urange(20, 200);
+    let mut s = String::from(",");
+    for i in 0..depth {
+        s.push('[');
+        if i % 7 == 3 {
+            s.push_str(*rng.pick(&[">+<", "-", ".", ">", "<+>"][..]));
+        }
+    }
+    s.push_str(*rng.pick(&["-", ">+<-", ".-", ""][..]));
+    for i in 0..depth {
+        if i % 5 == 1 {
+            s.push_str(*rng.pick(&["-", ">", "<", "+"][..]));
+        }
+        s.push(']');
+    }
+    s.push('.');
+    s
+}
+
+
+// ---------------------------------------------------------------------------------
 // F7: comment salting
 
 pub fn salt(rng: &mut Rng, prog: &str) -> String {
@@ -1279,6 +1489,8 @@ pub fn program(rng: &mut Rng, fam: Family, width: u32, corpus: &[String], big: b
         Family::Brackets => brackets(rng),
         Family::Idioms => idioms(rng),
         Family::Long => long_straight(rng),
+        Family::Explosive => explosive(rng),
+        Family::Nested => deep_nesting(rng),
     };
     if rng.chance(1, 8) {
         salt(rng, &p)
